@@ -123,6 +123,29 @@ def run(R):
         if not okr:
             R.viol("C19.refresh.removed", "removed-resurrected", "refresh_node_registry can mark a service Stopped (on_stop) without having established that it is not Removed: a removed service does not stay removed", ref, ref.lines[0])
         R.inst("C19.refresh.removed", "K4 gate", "refresh: on_stop after a failed process lookup only for a service that is not Removed", len(stops), okr)
+        # a process that was found is recorded — always: from the Ok side of either lookup the per-service iteration comes round (or the
+        # function returns) only through on_start, the one place that writes the looked-up PID and Running into the registry (seed C19-r6:
+        # on_start skipped on a partial refresh for a service already recorded Running — a service restarted by the OS under a new PID keeps
+        # its dead PID in the registry)
+        starts_ = set(CallSink(SSA + "on_start", NS + "on_start").blocks(ref))
+        loop_next = {n_b for n_b in nxt if any(set(gpp) & g.reach((d,), avoid=nxt) for d, _ in g.succ[n_b])}
+        rets = {b["id"] for b in ref.blocks if b["term"]["k"] == "return"}
+        okf, nfound = bool(starts_) and bool(loop_next), 0
+        for gd in g_any:
+            _n, acc_e, _rej = gd.edges(ref)
+            for _src, dst in acc_e:
+                nfound += 1
+                if dst in starts_:
+                    continue
+                seen = g.reach((dst,), avoid=starts_)
+                if seen & (loop_next | rets):
+                    okf = False
+                    R.viol("C19.refresh.found", "found-not-recorded:%s" % gd.label.split()[0], "refresh_node_registry can finish a service's iteration after `%s` without on_start(pid): the PID / Running "
+                           "status found is not recorded (a service restarted under a new PID keeps the dead one)" % gd.label, ref, g.term(_src)["l"])
+        if not nfound:
+            okf = False
+            R.viol("C19.refresh.found", "anchor-missing:lookup-ok", "no Ok side of a process lookup found in refresh_node_registry", ref, ref.lines[0])
+        R.inst("C19.refresh.found", "K5 must-follow", "refresh: a found process (lookup Ok) is always recorded through on_start before the iteration ends", nfound, okf)
         # whatever status is recorded, the process is looked up: a service recorded Added (a start that failed after the launch) or Stopped
         # whose process lives is only ever noticed here — a `continue` on the recorded status in front of the lookup leaves it unnoticed,
         # and remove / stop then act on a live process
